@@ -426,3 +426,123 @@ func analyseExitCondition(as AnalysisSpec, progs []*Program, cs *Contracts, func
 	ar.Summary = fmt.Sprintf("%d worker loops checked for their exit condition", len(keys))
 	return ar
 }
+
+func init() {
+	analyses["immutable-fields"] = analyseImmutableFields
+}
+
+// analyseImmutableFields: a field declared immutable is stored to only on an object allocated in the
+// same function body (i.e. while it is being constructed), anywhere in the module.
+func analyseImmutableFields(as AnalysisSpec, progs []*Program, cs *Contracts, funcs []*FuncResult, work string, timeout time.Duration) *AnalysisResult {
+	ar := &AnalysisResult{Name: as.Name}
+	var keys []string
+	for k := range cs.Immutable {
+		keys = append(keys, k)
+	}
+	sort.Strings(keys)
+	for _, key := range keys {
+		i := strings.LastIndex(key, ".")
+		skey, field := key[:i], key[i+1:]
+		o := &OblResult{Name: "module/immutable:" + key, Kind: "immutable-field", Func: key, Backend: "ssa-walker", Result: "discharged", Desc: "field is written only during construction of its object"}
+		found := false
+		for _, p := range progs {
+			for _, fn := range p.All {
+				for _, b := range fn.Blocks {
+					for _, in := range b.Instrs {
+						fa, ok := in.(*ssa.FieldAddr)
+						if !ok {
+							continue
+						}
+						st := deref(fa.X.Type())
+						if structKey(st) != skey || st.Underlying().(*types.Struct).Field(fa.Field).Name() != field {
+							continue
+						}
+						found = true
+						if fa.Referrers() == nil {
+							continue
+						}
+						for _, r := range *fa.Referrers() {
+							switch x := r.(type) {
+							case *ssa.Store:
+								if x.Addr != ssa.Value(fa) {
+									o.Result, o.Why = "failed", "address of the field is stored at "+p.Pos(x.Pos())
+									continue
+								}
+								if _, isAlloc := fa.X.(*ssa.Alloc); !isAlloc {
+									o.Result, o.Why = "failed", "field written after construction at "+p.Pos(x.Pos())+" in "+p.FuncKey(fn)
+								}
+							case *ssa.UnOp, *ssa.DebugRef:
+							default:
+								o.Result, o.Why = "failed", "address of the field escapes at "+p.Pos(r.Pos())+" in "+p.FuncKey(fn)
+							}
+						}
+					}
+				}
+			}
+		}
+		if !found && strings.HasPrefix(skey, "lib.") {
+			o.Result, o.Why = "failed", "field not found in the module"
+		}
+		ar.Obls = append(ar.Obls, o)
+	}
+	ar.Summary = fmt.Sprintf("%d immutable fields", len(keys))
+	return ar
+}
+
+func init() {
+	analyses["methodset"] = analyseMethodSet
+}
+
+// analyseMethodSet: every method in the method set of *T that can change the state the object
+// invariant speaks about must be declared on T itself (and is then verified against the invariant);
+// a state-changing method merely promoted from an embedded type bypasses the invariant.
+// args["type"] = "lib.TMemoryOutputBuffer"; list = keys of embedded-type methods that change the state.
+func analyseMethodSet(as AnalysisSpec, progs []*Program, cs *Contracts, funcs []*FuncResult, work string, timeout time.Duration) *AnalysisResult {
+	ar := &AnalysisResult{Name: as.Name}
+	tk := as.Args["type"]
+	growers := map[string]bool{}
+	for _, g := range as.List {
+		growers[g] = true
+	}
+	verified := map[string]bool{}
+	for _, f := range funcs {
+		if f.Unsupported == "" {
+			verified[f.Key] = true
+		}
+	}
+	for _, p := range progs {
+		i := strings.LastIndex(tk, ".")
+		var T types.Type
+		for _, pk := range p.OwnPackages() {
+			if PkgShort(pk.PkgPath) == tk[:i] {
+				if obj := pk.Types.Scope().Lookup(tk[i+1:]); obj != nil {
+					T = obj.Type()
+				}
+			}
+		}
+		if T == nil {
+			continue
+		}
+		ms := types.NewMethodSet(types.NewPointer(T))
+		for k := 0; k < ms.Len(); k++ {
+			sel := ms.At(k)
+			fn := sel.Obj().(*types.Func)
+			recv := fn.Type().(*types.Signature).Recv().Type()
+			declKey := structKey(deref(recv)) + "." + fn.Name()
+			o := &OblResult{Name: tk + "/methodset:" + fn.Name(), Kind: "methodset", Func: tk, Backend: "ssa-walker", Result: "discharged", Desc: "method " + fn.Name() + " of *" + tk + " cannot bypass the object invariant"}
+			if structKey(deref(recv)) == tk {
+				if !verified[declKey] {
+					o.Result, o.Why = "failed", "method declared on the type is not verified against the invariant"
+				}
+			} else if growers[declKey] {
+				o.Result, o.Why = "failed", "state-changing method "+declKey+" is promoted into the method set unchecked"
+			}
+			ar.Obls = append(ar.Obls, o)
+		}
+	}
+	if len(ar.Obls) == 0 {
+		ar.Obls = append(ar.Obls, &OblResult{Name: tk + "/methodset", Kind: "methodset", Result: "failed", Why: "type not found"})
+	}
+	ar.Summary = fmt.Sprintf("method set of *%s: %d methods", tk, len(ar.Obls))
+	return ar
+}
